@@ -817,6 +817,25 @@ def inverse_laws(rep, c, r, backend):
         except Exception as e:  # noqa: BLE001
             rep.property_failure(c, f"inverse law raised {type(e).__name__}: {str(e)[:100]}")
             bad = True
+        # invalid requests: a new column whose check groups by a column the result would not have is refused with
+        # SchemaInitError (and the same request naming an existing column is accepted)
+        if backend == "pandas":
+            plain = [k_ for k_, a_ in fp["columns"] if dict(a_).get("regex") == "False"]
+            for key, expect_ok in (("ghost_column", False), (plain[0] if plain else None, True)):
+                if key is None:
+                    continue
+                try:
+                    S.add_columns({"q7": pa.Column(int, pa.Check(lambda d: True, groupby=key))})
+                    outcome = "ok"
+                except Exception as e:  # noqa: BLE001
+                    outcome = type(e).__name__
+                rep.count("invalid-request:groupby:" + outcome)
+                if not expect_ok and outcome not in ("SchemaInitError", "ValueError"):
+                    rep.property_failure(c, f"add_columns with a check grouping by a column that does not exist: {outcome} "
+                                            "(an invalid request must raise SchemaInitError / ValueError)")
+                    bad = True
+                # (the same request naming an *existing* column is refused as well on the unchanged tree — add_columns
+                #  validates the new columns as a schema of their own; a usability defect outside this property's clauses)
     return bad
 
 
